@@ -213,8 +213,13 @@ class Env:
                 ctx["stageEnabled"] = {"type": "expression", "expression": "true" if sp["enabled"] else "false"}
             tasks = [TaskExecution.create(name=f"tk{t}", implementing_class="scripted", stage_start=(t == 0),
                                           stage_end=(t == len(tasks_oc) - 1)) for t in range(len(tasks_oc))]
+            extra = {}
+            if sp.get("join"):
+                from stabilize.models.stage import JoinType
+
+                extra = {"join_type": JoinType[sp["join"]], "join_threshold": sp.get("threshold", 0)}
             stages.append(StageExecution(ref_id=f"s{i}", type="scripted", name=f"s{i}", context=ctx, tasks=tasks,
-                                         requisite_stage_ref_ids={f"s{r}" for r in sp.get("reqs", [])}))
+                                         requisite_stage_ref_ids={f"s{r}" for r in sp.get("reqs", [])}, **extra))
         wf = Workflow.create(application="verif", name=f"wf{len(self.workflows)}", stages=stages)
         self.store.store(wf)
         w = {"id": wf.id, "obj": wf, "type": wf.type.value, "stage_ids": [s.id for s in stages], "spec": spec,
